@@ -49,7 +49,11 @@ impl RunMaps {
             let bid = alpha_g_detector::alpha16::BoardId::try_from(b.name.as_str()).unwrap();
             for ch in 0..32u8 {
                 if let Ok(p) = TpcWirePosition::try_new(run, bid, Adc32ChannelId::try_from(ch).unwrap()) {
-                    wire_src[usize::from(p)] = Some((bi, ch));
+                    // (a position outside 0..256 is the map's defect, not a reason for the harness to
+                    // fall over: the channel then simply has no wire in the inverse map)
+                    if let Some(slot) = wire_src.get_mut(usize::from(p)) {
+                        *slot = Some((bi, ch));
+                    }
                 }
             }
         }
@@ -186,4 +190,49 @@ impl PlacedBanks {
     pub fn iter(&self) -> impl Iterator<Item = (&str, &[u8])> + Clone {
         self.holders.iter().map(|(n, v, off)| (n.as_str(), &v[*off..]))
     }
+}
+
+/// Run numbers at which the repository's own sources switch maps or calibrations: every
+/// `<number>..` pattern in the match arms of the wire / pad maps and of the calibration
+/// dispatch, each with its two neighbours, plus the simulation run. Read from the CURRENT tree
+/// so that a window added later is visited without touching the harness.
+pub fn run_boundaries() -> Vec<u32> {
+    static B: std::sync::OnceLock<Vec<u32>> = std::sync::OnceLock::new();
+    B.get_or_init(|| {
+        let root = std::path::PathBuf::from(std::env::var("VERIF_REPO").unwrap_or_else(|_| "/repo".into()));
+        let mut files = vec![root.join("detector/src/alpha16/aw_map.rs"), root.join("detector/src/padwing/map.rs")];
+        for kind in ["wires", "pads"] {
+            for what in ["baseline", "gain", "delay"] {
+                files.push(root.join(format!("physics/src/calibration/{kind}/{what}.rs")));
+            }
+        }
+        let mut out = std::collections::BTreeSet::new();
+        for f in files {
+            let Ok(text) = std::fs::read_to_string(&f) else { continue };
+            for line in text.lines() {
+                let code = line.split("//").next().unwrap_or("");
+                if !code.contains("=>") {
+                    continue;
+                }
+                let pat = code.split("=>").next().unwrap_or("");
+                // "<a>..", "<a>..<b>", "<a>..=<b>", "<a> | <b>"
+                for tok in pat.split(|c: char| !(c.is_ascii_digit() || c == '_')) {
+                    let t = tok.replace('_', "");
+                    if t.is_empty() || t.len() > 10 {
+                        continue;
+                    }
+                    if let Ok(n) = t.parse::<u64>() {
+                        if n > 0 && n < u32::MAX as u64 {
+                            let n = n as u32;
+                            out.insert(n);
+                            out.insert(n - 1);
+                            out.insert(n + 1);
+                        }
+                    }
+                }
+            }
+        }
+        out.into_iter().collect()
+    })
+    .clone()
 }
